@@ -339,14 +339,16 @@ def denoteText (lay : Layout) (lines : List Bytes) : Option Denotation :=
   | none => none
   | some doc => denoteDocBook lay doc
 
-/-- `read_file`: the file's bytes split into lines at LF, CRLF or a bare CR (what a text-mode line reader does);
-a trailing line end does not start another line -/
+/-- `read_file`: the file's bytes split into lines at LF (10), CRLF or a bare CR (13) — the three line-end
+conventions of text files; a trailing line end does not start another line -/
 def fileLinesAux : Bytes → Bytes → List Bytes
   | cur, [] => if cur.isEmpty then [] else [cur.reverse]
-  | cur, '\n' :: t => cur.reverse :: fileLinesAux [] t
-  | cur, '\r' :: '\n' :: t => cur.reverse :: fileLinesAux [] t
-  | cur, '\r' :: t => cur.reverse :: fileLinesAux [] t
-  | cur, c :: t => fileLinesAux (c :: cur) t
+  | cur, [c] => if c.toNat = 13 || c.toNat = 10 then [cur.reverse] else [(c :: cur).reverse]
+  | cur, c :: d :: t =>
+    if c.toNat = 13 then
+      (if d.toNat = 10 then cur.reverse :: fileLinesAux [] t else cur.reverse :: fileLinesAux [] (d :: t))
+    else if c.toNat = 10 then cur.reverse :: fileLinesAux [] (d :: t)
+    else fileLinesAux (c :: cur) (d :: t)
 
 def fileLines (b : Bytes) : List Bytes := fileLinesAux [] b
 
